@@ -284,6 +284,26 @@ Section Machine.
     | Lock => (mkS (st_circ st) (st_regs st) (st_init st) true (st_unrolled st) (st_space st) (st_shots st) (st_added st), Done)
     end.
 
+  (* BaseEngine.get_tdm_options(program, shots=..., space_unroll=..., crop=...):
+       shots = kwargs shots (None modelled as None; `shots or 1` is the unrolling count)
+       received_rolled = program.is_unrolled                      (sic: the name is inverted in the source)
+       space_unroll=True : space-unroll unless a space-unrolled circuit is already cached
+       otherwise         : unroll unless the program is already (space-)unrolled
+       modes = range(crop value or 0, timebins) iff the program is now space-unrolled, else None.
+     cropv is program.get_crop_value() (modelled separately by crop_value).  Result:
+     (state, modes as (lo, hi), "shots" handed to the operations is 1 (true) or None (false), received_rolled). *)
+  Definition tdm_options (space_kw : bool) (shots : option nat) (crop : bool) (cropv : nat) (st : pstate)
+    : pstate * option (nat * nat) * bool * bool :=
+    let s := match shots with Some k => k | None => 1 end in
+    let st1 := if space_kw
+               then match st_space st with None => fst (do_space_unroll s st) | Some _ => st end
+               else if is_unrolled st then st else fst (do_unroll s st) in
+    let modes := match st_space st1 with
+                 | Some _ => Some ((if crop then cropv else 0), timebins)
+                 | None => None
+                 end in
+    (st1, modes, match shots with Some _ => true | None => false end, is_unrolled st).
+
   Definition init_state : pstate :=
     mkS CRolled (repeat true concurr) (Z.of_nat concurr) false None None None 0.
 
